@@ -27,7 +27,11 @@ CONSTANTS
   TenRanges <- Rng0
   TenDamps <- One0
   TenArms <- One0
+  TenZero <- NoTz
+  SpPairs <- NoSpS
+  SpArms <- One0
   Level = 2
+  Tie = FALSE
   Rand = TRUE
 INVARIANT TypeOK
 INVARIANT FramesProper
@@ -36,4 +40,5 @@ INVARIANT MoveIsLocal
 INVARIANT VelIsRecursive
 INVARIANT SubtreeJacIsDerivative
 INVARIANT KaneIsRecursive
+INVARIANT ConstraintJacIsDerivative
 CHECK_DEADLOCK FALSE
